@@ -339,6 +339,20 @@ pub fn gen_gadget_rich(r: &mut Rng, max_core: usize, pool: PhasePool, var_prob: 
 /// a mix of short ones (1-2 variables, skewed towards the low indices so that equal parities
 /// on different spiders are common) and long ones (each variable with probability 0.6).
 pub fn rewire_vars(d: &mut DDesc, r: &mut Rng, nvars: u32, p: f64) {
+    rewire_vars_from(d, r, nvars, p, 0)
+}
+
+/// The same with variable numbers offset..offset+nvars (numbers around 63/64, 127/128, 2^20)
+pub fn rewire_vars_from(d: &mut DDesc, r: &mut Rng, nvars: u32, p: f64, offset: u32) {
+    rewire_vars_inner(d, r, nvars, p);
+    for v in d.verts.iter_mut() {
+        for x in v.vars.iter_mut() {
+            *x += offset;
+        }
+    }
+}
+
+fn rewire_vars_inner(d: &mut DDesc, r: &mut Rng, nvars: u32, p: f64) {
     for v in d.verts.iter_mut() {
         if v.kind == VK::B {
             continue;
